@@ -12,7 +12,9 @@ use std::path::Path;
 
 // 7 and 71: the 64/128-byte record header divides the block; 3, 5, 6, 48, 65, 138, 284, 576: (BLOCK - 8) mod (key + 8) < 8,
 // i.e. an inner node with one more child would still fit without the extra pointer (capacity arithmetic classes)
-pub const PROBE_KEYLENS: &[usize] = &[1, 2, 3, 4, 5, 6, 7, 8, 16, 33, 48, 65, 71, 100, 138, 284, 400, 576, 1000];
+/// (1000 and 2000: three / one header per leaf, five / three children per inner node - trees of five to seven node levels
+/// are reached with a few hundred to two thousand headers)
+pub const PROBE_KEYLENS: &[usize] = &[1, 2, 3, 4, 5, 6, 7, 8, 16, 33, 48, 65, 71, 100, 138, 284, 400, 576, 1000, 2000];
 const BLOCK: usize = 4096;
 
 pub fn per_block(keylen: usize) -> usize {
@@ -77,7 +79,11 @@ pub fn idx_strategy() -> BoxedStrategy<IdxCase> {
             let cap = max_keys(keylen);
             let lvl2 = (pb * fan).min(cap);
             let lvl3 = (pb * fan * fan).saturating_add(pb * fan / 2).min(cap);
+            // tall trees: around and beyond fan-out^4 leaves where the key length makes that affordable
+            let lvl4 = pb * fan * fan * fan * fan;
+            let deep = if lvl4 + pb < cap { lvl4.saturating_sub(pb).max(1)..(lvl4 * fan).min(cap) + 1 } else { (lvl3 / 2).max(1)..(lvl3 + 1) };
             let nkeys = prop_oneof![
+                1 => deep,
                 3 => 1usize..6,
                 3 => (pb.saturating_sub(2).max(1))..(pb + 3).min(cap + 1),
                 2 => (lvl2.saturating_sub(pb).max(1))..(lvl2 + pb).min(cap + 1),
@@ -392,6 +398,9 @@ where
             if node_levels >= 3 {
                 labels.insert("ge3_node_levels".to_string());
             }
+            if node_levels >= 5 {
+                labels.insert("ge5_node_levels".to_string());
+            }
             let _ = file_len;
         }
     }
@@ -437,7 +446,7 @@ pub fn run_idx(c: &IdxCase, dir: &Path) -> Result<CaseOut, Failure> {
             n => fail("index/unsupported-keylen", format!("rev order {}", n)),
         };
     }
-    go!(1, 2, 3, 4, 5, 6, 7, 8, 16, 33, 48, 65, 71, 100, 138, 284, 400, 576, 1000)
+    go!(1, 2, 3, 4, 5, 6, 7, 8, 16, 33, 48, 65, 71, 100, 138, 284, 400, 576, 1000, 2000)
 }
 
 fn sample(c: &IdxCase) -> Value {
@@ -453,7 +462,7 @@ fn sweep_cases(thorough: bool) -> Vec<IdxCase> {
         let fan = fanout(keylen);
         let cap = max_keys(keylen);
         let mut counts: BTreeSet<usize> = BTreeSet::new();
-        for base in [1usize, pb, 2 * pb, pb * fan, pb * fan * 2, pb * (fan + 1), pb * fan * fan, pb * fan * fan * fan] {
+        for base in [1usize, pb, 2 * pb, pb * fan, pb * fan * 2, pb * (fan + 1), pb * fan * fan, pb * fan * fan * fan, pb * fan.pow(4), pb * fan.saturating_pow(5), pb * fan.saturating_pow(6)] {
             for d in [-2i64, -1, 0, 1, 2] {
                 let n = base as i64 + d;
                 if n >= 1 && (n as usize) <= cap {
